@@ -218,13 +218,17 @@ for _v, _m in _ASSIGN_FALL:
     _ens.append((f"binop.exec.compound_{_m}", ["C08", "C13"],
                  f"self.op is {_v} && {_both} ==> (match op_{_m}(cell_content({L}->Ok_0), {R}->Ok_0) {{ "
                  f"Ok(v) => r == {OKV}(v), Err(e) => r is Err }})"))
+_ens.append(("binop.exec.plain_assignment_yields_the_value", ["C13"],
+             f"self.op is Assign && {_both} ==> r == {OKV}({R}->Ok_0)"))
 _ens.append(("binop.exec.is_the_semantic_function_binop_res", ["C04", "C07", "C08"],
              f"is_plain_binop(self.op) || self.op is And || self.op is Or ==> "
              f"refines(r, binop_res(*self, {S0})) && {S9} == binop_st(*self, {S0})"))
 unit(id="binop.exec", src=BINOP, path=[("impl", "Exec for BinOperation"), ("fn", "exec")],
      impl="BinOperation", stubs=["and.exec", "or.exec", "assign.exec", "assign.try_exec"],
      fragments=["opspecs", "opstubs", "semantics"],
-     rewrites=[("|_, b| b", "|_a, b| b")],
+     # annotation of the closure of plain `=` (Verus gives un-annotated closures no callable spec and rejects `_` parameters):
+     # parameter types, a named result and `ensures y == b` are added, the body `b` is untouched
+     rewrites=[("|_, b| b", "|_a: Variable, b: Variable| -> (y: Variable) ensures y == b { b }")],
      requires=[f"(self.op is And || self.op is Or) && {L} is Ok ==> {L}->Ok_0 is Bool",
                "(" + " || ".join(f"self.op is {v}" for v in ["Assign"] + [a for a, _m in
                    [("AssignAdd", 0), ("AssignSubtract", 0), ("AssignMultiply", 0), ("AssignDivide", 0), ("AssignModulo", 0),
@@ -386,14 +390,17 @@ _POS = f"(if {_I} >= 0 {{ {_I} }} else {{ {_N} + {_I} }})"
 unit(id="at.exec", src="src/instruction/at.rs", path=[("fn", "exec")], mod="at",
      stubs=["stdlib.len"], extra="use stdlib_len::len;\n",
      requires=["variable is Array || variable is String", "index is Int", "spec_len(variable) <= isize::MAX as nat"],
+     # annotation of the closure that turns the selected scalar value into a string (no callable spec otherwise)
+     injections=[(".map(|ch| ch.to_string().into()),",
+                  ".map(|ch: Ch| -> (y: Variable) ensures y == Variable::String(Str { chars: Ghost(seq![ch.ch@]) }) { ch.to_string().into() }),")],
      ensures=[
+         ("at.exec.string_scalar_value", ["C09"],
+          f"{_INR} && variable is String ==> r == Ok::<Variable, ExecError>(Variable::String(Str {{ chars: Ghost(seq![variable->String_0.chars@[{_POS}]]) }}))"),
          ("at.exec.in_range_ok", ["C09"], f"{_INR} ==> r is Ok"),
          ("at.exec.out_of_range_error", ["C09"], f"!{_INR} ==> r is Err && r->Err_0 is IndexOutOfBounds"),
          ("at.exec.array_element", ["C09"],
           f"{_INR} && variable is Array ==> r == Ok::<Variable, ExecError>(variable->Array_0.elems@[{_POS}])"),
-         # the VALUE of the string arm goes through an un-annotated closure (`|ch| ch.to_string().into()`),
-         # which has no callable spec in Verus: Ok-ness/position is proved above, the value is K-bounded
-         # (k.c09_at_exec_string_multibyte) and probed
+         # (the closure `|ch| ch.to_string().into()` of the string arm is annotated by injection, see above)
      ])
 
 # ---------------------------------------------------------------- C04 recreate family -----
@@ -807,9 +814,11 @@ for _v, _l in _KINDS:
                   f"self is {_v} ==> r == kind_{_l}_res({_d}, {S0}) && {S9} == kind_{_l}_st({_d}, {S0})"))
 unit(id="instruction.exec", src=INS, path=[("impl", "Exec for Instruction"), ("fn", "exec")], impl="Instruction",
      fragments=["kinds"], omit=["instruction_exec_stub"],
-     # the panic closure of the LocalVariable arm (`ok_or_else(|| panic!(..))`) cannot be given a precondition without
-     # editing the body; that a name in an accepted program is always bound is C06's business => no `.safe` obligation
-     no_safe=True, requires=[f"self is LocalVariable ==> st_lookup({S0}, self->LocalVariable_0) is Some"],
+     # annotation: the panic closure of the LocalVariable arm is given `requires false`, so that calling ok_or_else obliges the
+     # proof to show the name IS bound (this unit's precondition; that accepted programs only read bound names is C06's business)
+     injections=[(".ok_or_else(|| panic!(\"Tried to get variable {ident} that doest exist\")),",
+                  ".ok_or_else(|| -> (e: ExecStop) requires false { panic!(\"Tried to get variable {ident} that doest exist\") }),")],
+     requires=[f"self is LocalVariable ==> st_lookup({S0}, self->LocalVariable_0) is Some"],
      ensures=_iens)
 
 _rens2 = [
